@@ -40,7 +40,8 @@ func init() {
 		Rule: "generated queue programs as for C05 with counter probes at generated points (also inside reader sections and right after queue/file reopen): " +
 			"ground truth D = number of events a second, fresh queue object can actually drain; Pending == Active == D, D within [explicitly flushed - ACKed, " +
 			"completed - ACKed], Flushed callback total == ACKed + D, ACKed callback total == ACKed, Reader.Available == ACKed + D - consumed (probed when not " +
-			"inside an event); non-trivial = program with >=3 probes including one on a partially ACKed queue or one empty-after-ACK and one Available probe; " +
+			"inside an event); half of the programs install a pq.Observer: OnQueueInit must report flushed - ACKed whenever a queue handle is opened, and the events " +
+			"reported by OnQueueFlush / OnQueueACK for operations not marked Failed must add up to the Flushed / ACKed callback totals; non-trivial = program with >=3 probes including one on a partially ACKed queue or one empty-after-ACK and one Available probe; " +
 			"distinct = distinct program hash",
 		Assume: []string{
 			"Available is only probed between events (a partially read event is neither consumed nor unread)",
